@@ -17,12 +17,14 @@ func init() {
 			ID: "C18", Title: "UPDATE packing is lossless and respects the message size limit", Level: "other",
 			Technique:   "size-effect analysis (R-SIZE, core/size.go): the budget estimate (BGPPath.Length, getBudget, updateOverhead, the per-prefix charge) and the serializers (PathAttributes → Serialize, NLRI.serialize, SerializeUpdate, the MP_REACH wrapper) are both reduced to linear forms in the collection sizes and compared coefficient-wise in every presence scenario; control-flow rules for the packing loop",
 			DesignRef:   "DESIGN.md §4 C18",
-			Decided:     "(0) the attribute reserve of getBudget is max(BGPPath.Length(), SerializedLength(pathAttrs, u.options)): the measuring function sums (*PathAttribute).Serialize over the very list that is sent, with the sender's options object; [informational only: in every scenario (which optional attributes are present/non-empty) BGPPath.Length() is at least the number of octets PathAttributes()+Serialize() emit for the same path, as linear forms (constant and every per-element coefficient) — Length() alone is known to fall short and is pinned by existing tests, which is why (0) exists]; (2) the per-prefix budget charge is at least what NLRI.serialize appends, under the same add-path condition the encoder uses; (3) for each session kind (IPv4, IPv4 over multiprotocol, IPv6) header + fixed UPDATE fields + MP_REACH wrapper − omitted NEXT_HOP is covered by what getBudget reserves; (4) a prefix is charged against the budget of the message it is put into (also the first prefix after a flush); (5) every queued prefix is appended to exactly one message slice, every slice is handed over, and every prefix of a slice becomes one NLRI. Together: no UPDATE the sender builds exceeds 4096 octets, so none is dropped by SerializeUpdate's gate.",
+			Decided:     "(00) the size test of SerializeUpdate lets a message of exactly 4096 octets through (it is not tighter than the budget the sender fills messages to); (0) the attribute reserve of getBudget is max(BGPPath.Length(), SerializedLength(pathAttrs, u.options)): the measuring function sums (*PathAttribute).Serialize over the very list that is sent, with the sender's options object; [informational only: in every scenario (which optional attributes are present/non-empty) BGPPath.Length() is at least the number of octets PathAttributes()+Serialize() emit for the same path, as linear forms (constant and every per-element coefficient) — Length() alone is known to fall short and is pinned by existing tests, which is why (0) exists]; (2) the per-prefix budget charge is at least what NLRI.serialize appends, under the same add-path condition the encoder uses; (3) for each session kind (IPv4, IPv4 over multiprotocol, IPv6) header + fixed UPDATE fields + MP_REACH wrapper − omitted NEXT_HOP is covered by what getBudget reserves; (4) a prefix is charged against the budget of the message it is put into (also the first prefix after a flush); (5) every queued prefix is appended to exactly one message slice, every slice is handed over, and every prefix of a slice becomes one NLRI. Together: no UPDATE the sender builds exceeds 4096 octets, so none is dropped by SerializeUpdate's gate.",
 			NotDecided:  "the analysis is over the size *shape* (linear in the numbers of elements); it assumes the encoder runs with the sender's own options object and that the next hop has the session's address family; it does not decide that the bytes written are the right bytes (C17).",
 			TrustedBase: stdTrusted,
 		},
 		Run: runC18,
 		Controls: []Control{
+			{Name: "serializer-rejects-full-message", File: "protocols/bgp/packet/update.go", Old: "\tif totalLength > 4096 {", New: "\tif totalLength >= MaxLen {", Expect: "full-message-not-rejected"},
+			{Name: "refactor-gate-uses-constant", Silent: true, File: "protocols/bgp/packet/update.go", Old: "\tif totalLength > 4096 {", New: "\tif totalLength >= MaxLen+1 {"},
 			{Name: "budget-from-estimate-only", File: "protocols/bgp/server/update_sender.go", Old: "\tif wireLen := pathAttrs.SerializedLength(u.options); wireLen > attrLen {\n\t\tattrLen = wireLen\n\t}\n", New: "", Expect: "reserve-covers-attributes"},
 			{Name: "addpath-charge-follows-rx", File: "protocols/bgp/server/update_sender.go", Old: "\t\tif u.options.UseAddPath {\n\t\t\tnlriLen += packet.PathIdentifierLen", New: "\t\tif u.addressFamily.addPathRX {\n\t\t\tnlriLen += packet.PathIdentifierLen", Expect: "prefix-charge-covers-nlri"},
 			{Name: "first-prefix-after-flush-uncharged", File: "protocols/bgp/server/update_sender.go", Old: "\t\t\tbudget = fullBudget - nlriLen\n", New: "\t\t\tbudget = fullBudget\n", Expect: "prefix-charged-to-its-message"},
@@ -137,6 +139,12 @@ func scenarioString(sc map[string]bool) string {
 
 func runC18(c *core.Ctx) {
 	p := c.P
+	// the serializer's gate is not tighter than the budget the sender fills messages to: a message of exactly 4096 octets passes
+	if f := c.MustFunc(pktPkg + ".(*BGPUpdate).SerializeUpdate"); f != nil {
+		sizeGate(c, f)
+		c.Check(sizeGateMax[c] == 4096, "full-message-not-rejected", f.Name()+" lets a message of exactly 4096 octets through", f.Decl.Pos(),
+			fmt.Sprintf("the size test of SerializeUpdate admits messages of at most %d octets; the update sender fills messages up to 4096: a completely filled UPDATE is rejected by the serializer and silently dropped, its prefixes are never announced", sizeGateMax[c]))
+	}
 	upd := "protocols/bgp/server.(*UpdateSender)."
 	getBudget := c.MustFunc(upd + "getBudget")
 	gui := c.MustFunc(upd + "_getUpdateInformation")
